@@ -14,6 +14,8 @@ CONSTANTS
   D = 4
   NameFamily = "collide"
   NameImpl = "prefixdot"
+  SampleImpl = "ref"
+  ForkImpl = "ref"
 INVARIANT TypeOK
 INVARIANT C06_FullCostAllFixed
 INVARIANT NamesCollide
